@@ -8,6 +8,9 @@ import PdshVerif.Opt.WcollAssemble
 import PdshVerif.Opt.WcollSplit
 import PdshVerif.Opt.WcollTargets
 import PdshVerif.Opt.WcollFd
+import PdshVerif.Opt.WcollBytes
+import PdshVerif.Opt.WcollLookup
+import PdshVerif.Opt.WcollTopFd
 import PdshVerif.Opt.Settings
 import PdshVerif.Dsh.Exit
 
@@ -16,7 +19,38 @@ import PdshVerif.Dsh.Exit
 
 Theorems about the model `Opt/Wcoll.lean` of wcoll.c and of the `-w` / `^file` / `-` / WCOLL part of
 opt.c (tied to the code by checks/c10.py).  The model's result is the ordered list of expressions
-handed to the hostlist parser; what an expression expands to is not part of these statements.
+handed to the hostlist parser; what an expression expands to is not part of these statements (it is in the
+END-TO-END section, through C01's theorems).
+
+clause of the property text                              theorem(s)
+-------------------------------------------------------  -----------------------------------------------------------
+concatenation, in command-line order, of every source    `order_of_sources`, `assemble_refines`, `command_line_split`,
+                                                         `rendered_options_stand_for_sources`, `x_option_is_dash_args`
+every `^file`: one expression per line, `#` comments     `file_hosts_spec_partial`, `file_source_spec_partial` (reader =
+and surrounding blanks ignored                           `WcollSpec`), `include_line_restriction_forced` (why partial)
+`#include F` replaced in place by F's hosts              same (order of `exprs`), non-vacuity `demoFS`
+F looked up in the directory of the COMMAND-LINE file    `bare_include_in_top_directory`, `dot_names_are_bare`,
+                                                         `nested_includes_in_command_line_directory` (every depth),
+                                                         `stdin_includes_in_current_directory`, `dirname_is_dirOf`
+standard input for `-`                                   `assemble_refines` (`Source.stdin`; consumed once)
+WCOLL when no other source is given                      `wcoll_only_without_other_source`, `wcoll_fallback`,
+                                                         `no_source_no_list`, `empty_list_exit1`
+lines of ANY length read whole (no name split)           BYTE LEVEL: `glued_pieces_whole`, `whole_lines_bytes`,
+                                                         `byte_reader_is_line_reader` (fgets pieces of any buffer size,
+                                                         glued, = whole lines, for every content); `whole_lines`,
+                                                         `short_lines_whole`; as found: `fgets_splits(_witness)` (D12)
+a file reached a second time is skipped with a warning   `include_terminates`, `included_once`, `second_spelling_skipped`,
+rather than looping                                      `spellings_resolve_alike`, `opened_in_cache`
+an unreadable source is an error, not an empty list      `unreadable_is_error`, `unreadable_include_is_error`,
+                                                         `unresolved_include_is_error`, `error_is_final`
+(resources) no descriptor leaks                          `descriptors_balanced`, `open_files_le_depth`, `open_files_le_files`
+end to end (C10 ∘ C02 ∘ C01)                             `target_list_end_to_end` (+ `_is_cliWords`, `_is_cliFinalW`)
+
+The reader comes in three forms (`LineMode`): `.fgets n` (as found: every fgets piece parsed on its own),
+`.glued n` (as repaired, byte level: pieces glued until one holds a newline) and `.whole` (the specification's
+whole lines).  Every theorem with a `mode` parameter holds for all three; the length hypotheses mention
+`mode.cap`, which is `none` for `.glued` and `.whole`.  The compiled model the real pdsh is compared with
+executes `.glued LINEBUFSIZE` (or `.fgets LINEBUFSIZE` when the probe finds the old reader).
 
 Proved:  reading terminates for EVERY file system and include graph (`include_terminates`: the
 recursion fuel `|fs|+1` is never exhausted — well-founded on the number of files not yet in the
@@ -26,21 +60,23 @@ for stdin being consumed (`order_of_sources`);  WCOLL is consulted only when no 
 the list (`wcoll_only_without_other_source`);  an unreadable or missing source or included file is an
 error, and errors are final (`unreadable_is_error`, `unreadable_include_is_error`,
 `unresolved_include_is_error`);  lines that fit the buffer are handed over whole
-(`short_lines_whole`), with the repaired reader every line is (`whole_lines`).
-The full statement "file lines of any length are read whole" is FALSE of the unchanged code:
+(`short_lines_whole`), with the repaired reader every line is (`whole_lines`, `whole_lines_bytes`).
+The full statement "file lines of any length are read whole" is FALSE of the code as found:
 `fgets_splits` (general) and `fgets_splits_witness` (D12).
 `file_hosts_spec_partial` / `file_source_spec_partial`: on well-formed files whose lines fit the buffer
 the reader IS the specification `Opt/WcollSpec.lean` (same expressions in the same order, one warning
 per skipped second reach, same error status); for the repaired reader without any length condition.
 END TO END (`target_list_end_to_end`): with C02's model of `wcoll_arg_process` / exclusion / regex filters and
 C01's `hostlist_create` / re-expansion, the hosts pdsh goes on with are the expansion of every target word in
-source order (files inlined, WCOLL iff no target source) minus the excluded names, filtered — in ONE decidable
-domain `targetDomain`; the empty list is refused with exit 1 (`no_source_no_list`, `empty_list_exit1`).
+source order (files and standard input inlined, WCOLL iff no target source) minus the excluded names, filtered — in ONE decidable
+domain `targetDomain`; starts from the argument TEXTS (`Seg.text`), the file BYTES (`fs`, any `mode` incl. the
+byte-level `.glued`) and the environment (`wenv`); the empty list is refused with exit 1 (`no_source_no_list`,
+`empty_list_exit1`).
 DESCRIPTORS (`descriptors_balanced`, `open_files_le_depth`): every stream the reader opens is closed when
 `wcoll_ctx_read_file` returns, one stream per include level at most (ghost counter, erasable).
-Not proved here: hostlist expansion (outside the end-to-end section);  dirname(3)/access(2) themselves;  the opt.c side is proved
-against its own characterisation (`order_of_sources`), the check compares it with the
-specification's `assemble` on every generated command line.
+Not proved here: a SECOND stdin source inside `target_list_end_to_end` (C02's file table is a static lookup; the
+domain asks for at most one `-`; `stdin_read_once` says what the second one reads);  dirname(3)/access(2)/fgets(3) themselves (modelled);  NUL bytes in files;  the
+`:`-split of the command-line file's directory (`colon_dir_witness`, outside the domain).
 -/
 namespace PdshVerif.Props.C10
 open PdshVerif.Opt hiding Str Cfg Env Fixes
@@ -194,7 +230,7 @@ bytes of a longer line are handed to the parser on their own -/
 theorem fgets_splits (size : Nat) (a b : Str) (ha : '\n' ∉ a) (hne : a ≠ []) (hlen : a.length = size - 1) :
     chunks (.fgets size) (a ++ b) = a :: chunks (.fgets size) b := by
   have := chunksGo_full (size - 1) a [] b ha hne (by simpa using hlen)
-  simpa [chunks, LineMode.cap] using this
+  simpa [chunks, LineMode.cap, LineMode.glues] using this
 
 /-- D12 witness, end to end (8-byte buffer for readability): the name `node0454` straddling the
 buffer boundary reaches the parser as `n1,node` and `0454`; the repaired reader keeps it whole -/
@@ -393,6 +429,118 @@ example : listSplit [':'] (dirname "/abs/d/A".toList) = [WcollSpec.dirOf "/abs/d
 example : LineOK "d".toList "#include \tB ".toList := ⟨by decide, by decide, by decide⟩
 example : LineOK "d".toList " n[1-3] # comment".toList := ⟨by decide, by decide, by decide⟩
 
+/-! ## byte level: `fgets` pieces of any size, glued, are the whole lines -/
+
+/-- THE REPAIRED READER AS WRITTEN (`LineMode.glued size`: `fgets (buf, size, fp)` pieces appended with
+`xstrcat` until a piece holds a newline, the rest at EOF handed over as a last line) calls
+`wcoll_ctx_read_line` with exactly the whole lines of the stream — for EVERY content (lines of any length, with
+or without a final newline, empty lines, the empty stream; NUL bytes are outside the model) and EVERY buffer
+size -/
+theorem glued_pieces_whole (size : Nat) (s : Str) : chunks (.glued size) s = chunks .whole s :=
+  glued_eq_whole size s
+
+/-- ... so no host name is ever split or truncated: every line, whatever its length, reaches the parser whole -/
+theorem whole_lines_bytes (size : Nat) (ls : List Str) (last : Str) (h : ∀ l ∈ ls, '\n' ∉ l) (hl : '\n' ∉ last) :
+    chunks (.glued size) (joinLines ls last) = ls.map (· ++ ['\n']) ++ (if last.isEmpty then [] else [last]) := by
+  rw [glued_pieces_whole]; exact whole_lines ls last h hl
+
+/-- ... and the whole option processing of the byte-level reader is that of the line-level reader: every theorem
+of this file stated for a `mode` holds of `repairedReader` (= `.glued LINEBUFSIZE`, LINEBUFSIZE regenerated from
+/repo) with the length hypotheses vacuous (`(.glued size).cap = none`), and the compiled model the real pdsh is
+compared with executes `.glued` -/
+theorem byte_reader_is_line_reader (size : Nat) (fs : FS) (stdin : Str) (opts : List Opt) (env : Option Str) :
+    assembleOpts (.glued size) fs stdin opts env = assembleOpts .whole fs stdin opts env :=
+  assembleOpts_glued size fs stdin opts env
+
+/-- the same name straddling the boundary of an 8-byte buffer, a line of exactly one buffer followed by another
+line, and an unterminated last line of exactly one buffer: all whole (cf. `fgets_splits_witness`) -/
+example : (readStream (.glued 8) [] [".".toList] "n1,node0454\n".toList).exprs = ["n1,node0454".toList] ∧
+    (readStream (.glued 8) [] [".".toList] "abcdef\nnext\n".toList).exprs = ["abcdef".toList, "next".toList] ∧
+    (readStream (.glued 8) [] [".".toList] "x\nabcdefg".toList).exprs = ["x".toList, "abcdefg".toList] := by decide
+
+/-- END TO END FROM BYTES: `target_list_end_to_end` below is stated for every `mode`; its domain predicate
+mentions the mode only through `mode.cap`, which is `none` for the byte-level reader — the instance for the
+reader as repaired needs no length condition on any file -/
+example : repairedReader.cap = none := rfl
+
+/-! ## standard input: `-w -`, `^-`, and what a lone `-` inside a list is -/
+
+/-- `-w -` IS `-w ^-` (the `case 'w'` of `opt_args` rewrites the lone dash) -/
+theorem dash_is_caret_dash (mode : LineMode) (fs : FS) (st : St) :
+    optargProcess mode fs st ['-'] = optargProcess mode fs st ['^', '-'] := by
+  have : listSplit [','] ['^', '-'] = [['^', '-']] := by decide
+  simp [optargProcess, this]
+
+/-- STDIN IS READ ONCE: the first stdin source takes everything (whatever the reader does with it), a second one
+— `-w - -w -`, `-w ^-,^-`, `-w - ` then WCOLL=`-` — finds end of file: it contributes no expression, no warning
+and no error (it still counts as a source: the list exists) -/
+theorem stdin_read_once (mode : LineMode) (fs : FS) (st : St) (hf : st.fatal = false) :
+    (argProcess mode fs st ['^', '-']).stdin = [] ∧
+    (st.stdin = [] → (argProcess mode fs st ['^', '-']).exprs = st.exprs ∧
+      (argProcess mode fs st ['^', '-']).nwarn = st.nwarn ∧ (argProcess mode fs st ['^', '-']).fatal = false ∧
+      (argProcess mode fs st ['^', '-']).created = true) := by
+  have harg : argProcess mode fs st ['^', '-'] = absorb st false (readWcoll mode fs st.stdin ['-']) := by
+    simp [argProcess, hf, isspaceC]
+  have hempty : (readWcoll mode fs [] ['-']).1 = {} := by
+    have hch : chunks mode [] = [] := by
+      rw [chunks_eq]; simp [chunksGo]
+    simp [readWcoll, readStream, hch]
+  refine ⟨?_, fun he => ?_⟩
+  · rw [harg]
+    simp only [absorb, readWcoll, if_true]
+    split <;> simp
+  · rw [harg, he]
+    simp [absorb, hempty, hf]
+
+/-- a lone `-` INSIDE a comma-separated list is not standard input: it is the exclusion of the empty word
+(`-w a,-` = target `a`, exclusion ``); only the whole option argument `-` and the word `^-` mean stdin -/
+theorem dash_inside_list_is_not_stdin :
+    (optargProcess .whole [] { stdin := "s1\n".toList } "a,-".toList).exprs = ["a".toList] ∧
+    (optargProcess .whole [] { stdin := "s1\n".toList } "a,-".toList).excl = [[]] ∧
+    (optargProcess .whole [] { stdin := "s1\n".toList } "a,-".toList).stdin = "s1\n".toList ∧
+    (optargProcess .whole [] { stdin := "s1\n".toList } "a,^-".toList).exprs = ["a".toList, "s1".toList] := by
+  decide
+
+/-! ## where included files are looked up -/
+
+/-- THE DIRECTORY OF THE FILE NAMED ON THE COMMAND LINE, AT EVERY DEPTH.  Every file the reader opens through
+`#include` lines — directly or through any chain of included files — is either named explicitly (absolute,
+`./…`, `../…`: used as written, relative to the current directory) or is the readable file `D/NAME` with
+`D` = the directory of the command-line file and NAME the name as written: never a file found relative to the
+INCLUDING file's directory, never one found in the current directory. -/
+theorem nested_includes_in_command_line_directory (mode : LineMode) (fs : FS) (stdin file : Str)
+    (h1 : file ≠ ['-']) (hp : PlainPath file) (hc : ':' ∉ WcollSpec.dirOf file) :
+    ∀ x ∈ (readWcoll mode fs stdin file).1.opened, InDirOrExplicit fs (WcollSpec.dirOf file) x := by
+  unfold readWcoll
+  rw [if_neg h1, search_path_of_plain file hp hc]
+  split
+  · intro x hx; simp at hx
+  · split
+    · exact readStream_opened mode fs _ _ (fun f fq h => resolve_inDir fs _ f fq h) _
+    · intro x hx; simp at hx
+
+/-- for standard input (`-`, `^-`, WCOLL=-) the directory is `.` -/
+theorem stdin_includes_in_current_directory (mode : LineMode) (fs : FS) (stdin : Str) :
+    ∀ x ∈ (readWcoll mode fs stdin ['-']).1.opened, InDirOrExplicit fs ['.'] x := by
+  have : listSplit [':'] ['.'] = [['.']] := by decide
+  simp only [readWcoll, if_true, this]
+  exact readStream_opened mode fs _ _ (fun f fq h => resolve_inDir fs _ f fq h) _
+
+/-- pinned on the real pdsh by checks/c10.py (`nested-lookup:*`): `t/A` includes `s/B`; `t/s/B` includes `C` and
+`s/D`; a file `C` exists in `t` (right), next to the including file in `t/s` (decoy) and in the current
+directory (decoy); `s/D` exists as `t/s/D` (right) and `t/s/s/D` (decoy) -/
+example :
+    let fs : FS := [⟨"t/A".toList, true, "a1\n#include s/B\na2\n".toList⟩,
+      ⟨"t/s/B".toList, true, "b1\n#include C\n#include s/D\nb2\n".toList⟩,
+      ⟨"t/C".toList, true, "c-right\n".toList⟩, ⟨"t/s/C".toList, true, "c-decoy\n".toList⟩,
+      ⟨"C".toList, true, "c-decoy-cwd\n".toList⟩, ⟨"./C".toList, true, "c-decoy-cwd\n".toList⟩,
+      ⟨"t/s/D".toList, true, "d-right\n#include C\n".toList⟩, ⟨"t/s/s/D".toList, true, "d-decoy\n".toList⟩]
+    (readWcoll repairedReader fs [] "t/A".toList).1.exprs =
+        ["a1", "b1", "c-right", "d-right", "b2", "a2"].map String.toList ∧
+      (readWcoll repairedReader fs [] "t/A".toList).1.nwarn = 1 ∧
+      (WcollSpec.fileHosts fs "t/A".toList).exprs = ["a1", "b1", "c-right", "d-right", "b2", "a2"].map String.toList := by
+  decide
+
 /-! ## descriptors: what the reader holds open (ghost `Fd` threaded through the reader, Opt/WcollFd.lean) -/
 
 /-- the ghost does not influence the reader: erasing it gives `readFile` back -/
@@ -420,6 +568,33 @@ theorem open_files_le_files (mode : LineMode) (fs : FS) (dirs : List (List Char)
   have h := (readFileG_fd mode fs dirs (fuelFor fs) f (c, {})).2
   simpa [fuelFor] using h
 
+/-! ### the streams `read_wcoll` opens itself (F10-TOPFD) -/
+
+/-- the ghost count next to the option processing does not influence it -/
+theorem top_stream_ghost_erasable (closeTop : Bool) (mode : LineMode) (fs : FS) (stdin : List Char)
+    (opts : List Opt) (env : Option (List Char)) :
+    (assembleOptsT closeTop mode fs stdin opts env).1 = assembleOpts mode fs stdin opts env :=
+  assembleOptsT_fst closeTop mode fs stdin opts env
+
+/-- with `fclose (fp)` added to `read_wcoll`, no stream opened for a `^file`, an exclusion file or WCOLL is
+left open, whatever the command line -/
+theorem top_streams_closed (mode : LineMode) (fs : FS) (stdin : List Char) (opts : List Opt)
+    (env : Option (List Char)) : (assembleOptsT true mode fs stdin opts env).2 = 0 := by
+  simp only [assembleOptsT]
+  have h := foldl_optProcessT_closed mode fs opts ({ stdin := stdin }, 0)
+  split
+  · exact h
+  · split
+    · exact h
+    · simp [h]
+
+/-- F10-TOPFD (witness): as found, `read_wcoll` never closes the stream it opened — `-w ^d/A,^d/B -x ^d/C`
+leaves three descriptors open (stdin `-` none); 60 file sources under `ulimit -n 40` end in "Too many open
+files" on the real pdsh (pinned by checks/c10.py) -/
+theorem top_streams_leak_witness :
+    (assembleOptsT false repairedReader demoFS [] [.w "^d/A,^-,^d/B".toList, .x "^d/C".toList] none).2 = 3 ∧
+    (assembleOptsT false repairedReader demoFS [] [] (some "d/A".toList)).2 = 1 := by decide
+
 /-- three files that name one another in every way (cycle, diamond): three streams at most, none left open -/
 example : (readFileG shipped demoFS ["d".toList] (fuelFor demoFS) "A".toList ({}, {})).2 = ⟨0, 3⟩ := by decide
 
@@ -429,7 +604,8 @@ open PdshVerif.Hostlist PdshVerif.Opt.Targets
 
 /-- TARGET LIST, END TO END.  The command line is a list of segments in the order `wcoll_arg_process` sees
 them: `-w` words (plain, one or TWO pairs of brackets), `^file` (its expressions, includes inlined, standing
-where the file stands), `-x` words, the exclusion files (`-x ^file`, dash `^file`), the regex words (`/re/`, and
+where the file stands), standard input (`-w -` = `^-`: the segment `tfile "-"`, its bytes = `stdin`, includes
+looked up in `.`), `-x` words, the exclusion files (`-x ^file`, dash `^file`), the regex words (`/re/`, and
 the same behind a dash); `wenv` = WCOLL.  In the domain `targetDomain` (ONE decidable predicate: the conjunction
 of the domains of C01's `create_word` / `wcoll_expand₂`, C02's `exclusion_correct` and C10's
 `file_source_spec_partial`), with D1, D17, D19 and F02-2BR repaired (the order of /repo: `wcoll_expand` before
@@ -442,15 +618,15 @@ yields exactly: the expansion (C01's `expand₂`) of every target word in source
 (`WcollSpec.fileHosts`, the property-level reading with includes), minus every excluded name, filtered by every
 regex. -/
 theorem target_list_end_to_end (cfg : Cfg) (hD1 : cfg.fixDeleteAll = true) (hD17 : cfg.fixIterSuffix = true)
-    (hD19 : cfg.fixRemoveDepth = true) (h2Br : cfg.fix2Br = true) (mode : LineMode) (fs : FS)
+    (hD19 : cfg.fixRemoveDepth = true) (h2Br : cfg.fix2Br = true) (mode : LineMode) (fs : FS) (stdin : List Char)
     (rematch : List Char → List Char → Option Bool)
     (badre : List Char → Bool) (segs : List Seg) (wenv : Option (List Char × List Spec.Word))
-    (hdom : targetDomain cfg mode fs rematch badre segs wenv = true) :
-    targetList cfg (envOf mode fs rematch badre segs wenv) (wenv.map (·.1)) (segs.map Seg.text) =
+    (hdom : targetDomain cfg mode fs stdin rematch badre segs wenv = true) :
+    targetList cfg (envOf mode fs stdin rematch badre segs wenv) (wenv.map (·.1)) (segs.map Seg.text) =
       .ok ((((Spec.expand₂ (tgtWords segs wenv)).filter
               fun h => !(segs.flatMap Seg.xnames).contains h).filter
-            (Exclude.keepAll (envOf mode fs rematch badre segs wenv) (segs.flatMap Seg.reg)))) :=
-  targetList_correct cfg hD1 hD17 hD19 h2Br mode fs rematch badre segs wenv hdom
+            (Exclude.keepAll (envOf mode fs stdin rematch badre segs wenv) (segs.flatMap Seg.reg)))) :=
+  targetList_correct cfg hD1 hD17 hD19 h2Br mode fs stdin rematch badre segs wenv hdom
 
 /-- without WCOLL the composed function IS C02's `cliWords` (the function `exclusion_correct` speaks about) -/
 theorem target_list_is_cliWords (cfg : Cfg) (env : Exclude.Env) (words : List (List Char)) :
@@ -480,21 +656,46 @@ def siteSegs : List Seg :=
 def siteMatch : List Char → List Char → Option Bool := fun p h => if p = "3".toList then some (h.contains '3') else none
 
 /-- the domain is inhabited by a command line with an include file and an exclusion file (decided) -/
-example : targetDomain Cfg.repaired .whole siteFS siteMatch (fun _ => false) siteSegs none = true := by decide
+example : targetDomain Cfg.repaired .whole siteFS [] siteMatch (fun _ => false) siteSegs none = true := by decide
 
 /-- ... and through the theorem: n[1-3] and m7 from the file, r[1-2]n[1-2]; m7 and r1n2 excluded by the exclusion
     file, n3 dropped by the regex -/
-example : targetList Cfg.repaired (envOf .whole siteFS siteMatch (fun _ => false) siteSegs none) none
+example : targetList Cfg.repaired (envOf .whole siteFS [] siteMatch (fun _ => false) siteSegs none) none
     (siteSegs.map Seg.text) =
     .ok ["n1".toList, "n2".toList, "r1n1".toList, "r2n1".toList, "r2n2".toList] := by
-  have h := target_list_end_to_end Cfg.repaired rfl rfl rfl rfl .whole siteFS siteMatch (fun _ => false) siteSegs none
+  have h := target_list_end_to_end Cfg.repaired rfl rfl rfl rfl .whole siteFS [] siteMatch (fun _ => false) siteSegs none
     (by decide)
   rw [show (none : Option (List Char × List Spec.Word)).map (·.1) = none from rfl] at h
   rw [h]
   decide
 
+/-- `printf 'n[1-2]\\n#include d/more\\n' | pdsh -w - -w k1 -x ^d/down`: STANDARD INPUT as a source (read by
+    the byte-level reader, its include looked up in `.`), a word after it, an exclusion file with the same include -/
+def stdinSegs : List Seg :=
+  [.tfile "-".toList [.br "n".toList [⟨"1".toList, some "2".toList⟩] [] none, .plain "m7".toList],
+   .cw (.tgt (.plain "k1".toList)),
+   .xfile "d/down".toList [.plain "m7".toList, .plain "r1n2".toList]]
+
+def stdinFS : FS := siteFS ++ [⟨"./d/more".toList, true, "m7 # spare\n".toList⟩]
+
+example : targetDomain Cfg.repaired repairedReader stdinFS "n[1-2]\n#include d/more\n".toList siteMatch (fun _ => false)
+    stdinSegs none = true := by decide
+
+example : targetList Cfg.repaired (envOf repairedReader stdinFS "n[1-2]\n#include d/more\n".toList siteMatch
+      (fun _ => false) stdinSegs none) none (stdinSegs.map Seg.text) =
+    .ok ["n1".toList, "n2".toList, "k1".toList] := by
+  have h := target_list_end_to_end Cfg.repaired rfl rfl rfl rfl repairedReader stdinFS
+    "n[1-2]\n#include d/more\n".toList siteMatch (fun _ => false) stdinSegs none (by decide)
+  rw [show (none : Option (List Char × List Spec.Word)).map (·.1) = none from rfl] at h
+  rw [h]
+  decide
+
+/-- two stdin sources are outside the domain (the second finds end of file: `stdin_read_once`) -/
+example : targetDomain Cfg.repaired .whole [] "a\n".toList (fun _ _ => none) (fun _ => false)
+    [.tfile "-".toList [.plain "a".toList], .tfile "-".toList [.plain "a".toList]] none = false := by decide
+
 /-- the same list named by WCOLL alone (no target segment): WCOLL's file is read -/
-example : targetDomain Cfg.repaired .whole siteFS siteMatch (fun _ => false)
+example : targetDomain Cfg.repaired .whole siteFS [] siteMatch (fun _ => false)
     [.cw (.xcl (.plain "n2".toList))]
     (some ("d/all".toList, [.br "n".toList [⟨"1".toList, some "3".toList⟩] [] none, .plain "m7".toList])) = true := by
   decide
@@ -539,11 +740,11 @@ theorem empty_list_exit1 (r : Exclude.Res) (hr : r = .nohosts ∨ r = .ok [])
   simp [PdshVerif.Opt.optVerify, PdshVerif.Opt.optVerifyPlain, hl, hplain.1, hplain.2]
 
 /-- `pdsh -w n1,n2 -x n[1-2]`: every target is excluded — through `target_list_end_to_end` the list is empty -/
-example : targetList Cfg.repaired (envOf .whole [] (fun _ _ => none) (fun _ => false)
+example : targetList Cfg.repaired (envOf .whole [] [] (fun _ _ => none) (fun _ => false)
       [.cw (.tgt (.plain "n1".toList)), .cw (.tgt (.plain "n2".toList)),
        .cw (.xcl (.br "n".toList [⟨"1".toList, some "2".toList⟩] [] none))] none) none
     ["n1".toList, "n2".toList, "-n[1-2]".toList] = .ok [] := by
-  have h := target_list_end_to_end Cfg.repaired rfl rfl rfl rfl .whole [] (fun _ _ => none) (fun _ => false)
+  have h := target_list_end_to_end Cfg.repaired rfl rfl rfl rfl .whole [] [] (fun _ _ => none) (fun _ => false)
     [.cw (.tgt (.plain "n1".toList)), .cw (.tgt (.plain "n2".toList)),
      .cw (.xcl (.br "n".toList [⟨"1".toList, some "2".toList⟩] [] none))] none (by decide)
   rw [show (none : Option (List Char × List Spec.Word)).map (·.1) = none from rfl] at h
